@@ -158,7 +158,7 @@ func Build(repo string) (*Node, error) {
 	_ = os.MkdirAll(bin, 0o755)
 	n.OrigBin = filepath.Join(bin, "goverter-orig")
 	n.SimBin = filepath.Join(bin, "goverter-sim")
-	if err := run(src, "go", "build", "-o", n.OrigBin, "./cmd/goverter"); err != nil {
+	if err := run(src, "go", "build", "-trimpath", "-o", n.OrigBin, "./cmd/goverter"); err != nil {
 		return nil, err
 	}
 
@@ -222,7 +222,7 @@ func Build(repo string) (*Node, error) {
 	if nr != n.MapRanges {
 		return nil, berr("seam validation: %d range sites rewritten, independent count %d", nr, n.MapRanges)
 	}
-	if err := run(src, "go", "build", "-o", n.SimBin, "./cmd/goverter"); err != nil {
+	if err := run(src, "go", "build", "-trimpath", "-o", n.SimBin, "./cmd/goverter"); err != nil {
 		return nil, err
 	}
 	sb, _ := json.MarshalIndent(n.Sites, "", " ")
